@@ -1,12 +1,13 @@
 use gv::checks::c17::*;
-fn main() {
+fn main() { std::thread::Builder::new().stack_size(1<<30).spawn(main2).unwrap().join().unwrap(); }
+fn main2() {
     let fam: usize = std::env::args().nth(1).unwrap().parse().unwrap();
     let var: usize = std::env::args().nth(2).unwrap().parse().unwrap();
-    for n in [25, 50, 100, 200, 400, 800, 1600] {
+    for n in [25, 100, 400, 1536, 3072, 6144] {
         let text = (FAMILIES[fam].1)(n);
         let text = dmg(&text, var);
         let m = measure(&text).unwrap();
-        println!("n={n} tokens={} calls={} per={:.1} cpu={:.4} ok={}", m.tokens, m.calls, m.calls as f64 / m.tokens.max(1) as f64, m.cpu_s, m.ok);
+        println!("n={n} tokens={} calls={} per={:.1} pass={} cpu={:.4} ok={}", m.tokens, m.calls, m.calls as f64 / m.tokens.max(1) as f64, m.pass_calls, m.cpu_s, m.ok);
         if n == 25 { println!("{}", &text[..text.len().min(300)]); }
     }
 }
